@@ -17,6 +17,7 @@ ACT = {
     "threads": "import threading, time\nfor i in range(3):\n    t = threading.Thread(target=time.sleep, args=(1000,))\n    t.daemon = True\n    t.start()\nchannel.receive()",
     "nonmain_busy": "import time\nchannel.send('started')\ntime.sleep(1000)",
     "lockholder": "import time\nc = channel.gateway.newchannel()\nchannel.send(c)\nwhile c._items.qsize() == 0:\n    time.sleep(0.01)\nc.setcallback(lambda x: time.sleep(1000))",
+    "lockholder_inflight": "import time\nc = channel.gateway.newchannel()\nchannel.send(c)\nwhile c._items.qsize() == 0:\n    time.sleep(0.01)\nc.setcallback(lambda x: time.sleep(1000))",
     "transfer": "data = b'x' * (1 << 20)\nwhile 1:\n    channel.send(data)",
     "endmarker_raiser": "import time\ndef cb(x):\n    if x == 'END':\n        raise ValueError('callback fails on its endmarker')\nc = channel.gateway.newchannel()\nc.setcallback(cb, endmarker='END')\nchannel.send(c)\ntime.sleep(1000)",
     "callback_sysexit": "def cb(x):\n    raise SystemExit(3)\nc = channel.gateway.newchannel()\nc.setcallback(cb)\nchannel.send(c)\nchannel.receive()",
@@ -44,6 +45,12 @@ for gw in gws:
         if activity == "lockholder":
             sub = ch.receive(10)
             sub.send(1)
+            chans.append(sub)
+        if activity == "lockholder_inflight":
+            sub = ch.receive(10)
+            sub.send(1)
+            time.sleep(0.6)          # the worker's body is inside the replay, holding the receive lock
+            sub.send(2)              # the worker's receiver thread reads this one and waits for the lock
             chans.append(sub)
         if activity == "endmarker_raiser":
             chans.append(ch.receive(10))
